@@ -122,9 +122,9 @@ class TokenFile:
     def delete(self):
         if self.path.is_file():
             logging.debug("Deleting token file %s", self.path)
-            self.path.unlink()
             if _verif.ACTIVE:
                 _verif.emit("tok.file.delete", name=self.path.name)
+            self.path.unlink()
 
     def watch(self):
         """Watch the matching process"""
